@@ -374,6 +374,13 @@ def _eval_model(live, counts, single=False):
             pcur = pv
             tagp = "" if pv == PVALS[0] else "param-changed:"
             P.value = pv          # the parameter changes AFTER the constraints were registered and compiled
+            # the solver's way of setting values (an x vector) in between: the variables are moved somewhere else through
+            # load_var_values_from_x, then assigned the grid point through Var.value - the assignment must win
+            xx = m.get_x()
+            for var_, val_ in ((X, xv), (Y, yv)):
+                if var_.index is not None:
+                    xx[var_.index] = val_ + 1.25
+            m.load_var_values_from_x(xx)
             X.value, Y.value = xv, yv
             r = m.evaluate_residuals()
             Jm = m.evaluate_jacobian().toarray()
